@@ -101,3 +101,77 @@ def controls(prop, ctx):
                       what="a zero-count rule did not report its positive control (a seeded regression applied to a scratch copy): "
                            "the rule would pass vacuously", found=r[3][:200])
     ctx.extra["positive_controls"] = rec
+
+
+def seeded(prop, ctx, jobs=8):
+    """Independent seeded breakages of this property (seeded/<P>_<X>/patch.diff, written by sub-agents that never saw the rules):
+    each is applied to a scratch copy of the current tree and must be reported by this property's check."""
+    sys.path.insert(0, os.path.join(HERE, "tools"))
+    import mutants as M
+    sdir = os.path.join(HERE, "seeded")
+    tasks = []
+    for d in sorted(os.listdir(sdir)) if os.path.isdir(sdir) else []:
+        pf = os.path.join(sdir, d, "patch.diff")
+        if os.path.exists(pf) and (d.startswith(prop + "_") or d.startswith("r2_" + prop + "_")):
+            tasks.append((prop, pf))
+    res = []
+    with ThreadPoolExecutor(max_workers=jobs) as ex:
+        for r in ex.map(lambda t: M.run_one(*t), tasks):
+            res.append(r)
+    det = [r for r in res if r[2] in ("DETECTED", "DETECTED-OTHER-RULE")]
+    for r in res:
+        if r not in det:
+            print("CHECKER-WEAKNESS property=%s seeded=%s status=%s %s" % (prop, os.path.basename(os.path.dirname(r[1])), r[2], r[3][:120]))
+    ctx.extra["independent_seeded_breakages"] = {"total": len(res), "detected": len(det),
+                                                 "not_detected": [(os.path.basename(os.path.dirname(r[1])), r[2]) for r in res if r not in det]}
+    if res:
+        print("self-validation: %d/%d independent seeded breakages of %s detected" % (len(det), len(res), prop))
+
+
+def benign(prop, ctx, jobs=8):
+    """Behaviour-preserving refactors (benign/): this property's check must stay silent on each.  A false alarm is printed as
+    CHECKER-FALSE-ALARM and recorded; like the mutants it measures the checker and does not change the verdict on /repo."""
+    import importlib.util, subprocess, tempfile, shutil
+    spec = importlib.util.spec_from_file_location("bdefs", os.path.join(HERE, "benign", "defs.py"))
+    bd = importlib.util.module_from_spec(spec)
+    spec.loader.exec_module(bd)
+    repo = os.environ.get("VERIF_REPO", "/repo")
+
+    def one(b):
+        name, edits, replace_all = b
+        if not edits:
+            return name, "SKIP"
+        d = tempfile.mkdtemp(prefix="benign_", dir="/tmp")
+        try:
+            scratch = os.path.join(d, "repo")
+            subprocess.run(["rsync", "-a", "--exclude", ".git", "--exclude", "target", repo + "/", scratch + "/"], check=True)
+            if isinstance(edits, str) and edits.startswith("PATCH:"):
+                r = subprocess.run(["patch", "-p1", "-s", "--no-backup-if-mismatch", "-i", os.path.join(HERE, edits[6:])], cwd=scratch,
+                                   capture_output=True, text=True)
+                if r.returncode != 0:
+                    return name, "STALE"
+            else:
+                for f, old, new in edits:
+                    pth = os.path.join(scratch, f)
+                    src = open(pth).read()
+                    if old not in src:
+                        return name, "STALE"
+                    open(pth, "w").write(src.replace(old, new) if replace_all else src.replace(old, new, 1))
+            env = dict(os.environ, VERIF_EVIDENCE_DIR=os.path.join(d, "ev"), VERIF_NO_CONTROLS="1")
+            r = subprocess.run([os.path.join(HERE, "check"), prop, "--repo", scratch], capture_output=True, text=True, env=env)
+            if "could not extract compiler facts" in r.stdout + r.stderr:
+                return name, "BROKEN"
+            return name, ("SILENT" if r.returncode == 0 else "FALSE-ALARM")
+        finally:
+            shutil.rmtree(d, ignore_errors=True)
+    out = []
+    with ThreadPoolExecutor(max_workers=jobs) as ex:
+        for r in ex.map(one, bd.BENIGN):
+            out.append(r)
+    fa = [n for n, st in out if st == "FALSE-ALARM"]
+    for n in fa:
+        print("CHECKER-FALSE-ALARM property=%s benign_edit=%s" % (prop, n))
+    ctx.extra["behaviour_preserving_edits"] = {"total": len([1 for _, st in out if st in ("SILENT", "FALSE-ALARM")]), "silent": len([1 for _, st in out if st == "SILENT"]),
+                                               "false_alarms": fa, "stale": [n for n, st in out if st in ("STALE", "BROKEN")]}
+    print("self-validation: silent on %d/%d behaviour-preserving edits" % (len([1 for _, st in out if st == "SILENT"]),
+                                                                          len([1 for _, st in out if st in ("SILENT", "FALSE-ALARM")])))
